@@ -1,2 +1,326 @@
-/-! line-protocol driver for property C04 (stub) -/
-def main (_args : List String) : IO Unit := pure ()
+import MirVerif.Model.MirCore
+import MirVerif.Model.Simplify
+/-! `mirdrv_c04`: line-protocol front end to MirCore (the meaning of a MIR program *as written*) and
+to the model of `simplify_func`.
+
+input (stdin):
+  func <name> <nparams> (<pname> <pty>)* <nres> <rty>* <nlocals> <lname>*
+    <opcode> <operand>...         operands: r:<reg>  i:<hex64>  m:<ty>:<hexdisp>:<base|->:<index|->:<scale>  l:<n>
+    label <n> | call|inline <callee> <nres> <result operands> <argument operands> | switch <opd> l:<n>...
+  endfunc
+  lower <0|1>                     print `simplifyFunc` of every function read so far (1 = rounding fix variant)
+  run <entry> <hex a0..a3>        MirCore on the program as written; entry is `f (p buf, i64 a0..a3)`
+  runs <entry> <hex a0..a3>       MirCore on the model-simplified program
+  reset                           forget all functions
+output: for `run`: `P <entry> <res hex> log<n>`, `M <hex bytes of the 576-byte buffer>`, `L <id>:<a>,<b>,<c>,<d> ...`
+        or `X <entry> <error>`. -/
+open MirVerif MirVerif.MirCore MirVerif.Simplify
+
+/-! ## the driver's byte memory: harness buffer + alloca stack -/
+def BUF_BASE : Nat := 0x100000
+def BUF_SIZE : Nat := 576
+def STK_BASE : Nat := 0x40000000
+def STK_SIZE : Nat := 0x10000
+
+structure DMem where
+  buf : ByteArray
+  stk : ByteArray
+
+instance : ByteMem DMem where
+  load m a :=
+    let a := a.toNat
+    if BUF_BASE ≤ a ∧ a < BUF_BASE + BUF_SIZE then BitVec.ofNat 8 (m.buf.get! (a - BUF_BASE)).toNat
+    else if STK_BASE ≤ a ∧ a < STK_BASE + STK_SIZE then BitVec.ofNat 8 (m.stk.get! (a - STK_BASE)).toNat
+    else 0
+  store m a v :=
+    let a := a.toNat
+    if BUF_BASE ≤ a ∧ a < BUF_BASE + BUF_SIZE then { m with buf := m.buf.set! (a - BUF_BASE) (UInt8.ofNat v.toNat) }
+    else if STK_BASE ≤ a ∧ a < STK_BASE + STK_SIZE then { m with stk := m.stk.set! (a - STK_BASE) (UInt8.ofNat v.toNat) }
+    else m
+  valid _ a :=
+    let a := a.toNat
+    (BUF_BASE ≤ a ∧ a < BUF_BASE + BUF_SIZE) ∨ (STK_BASE ≤ a ∧ a < STK_BASE + STK_SIZE)
+
+def initMem : DMem :=
+  { buf := ByteArray.mk ((List.range BUF_SIZE).map fun i => UInt8.ofNat ((i * 7 + 3) % 256)).toArray
+    stk := ByteArray.mk (Array.replicate STK_SIZE 0) }
+
+/-! ## the harness's external functions (harness/engine.c) -/
+def mix (h v : W64) : W64 := h ^^^ (v + 0x9e3779b97f4a7c15#64 + (h <<< 6) + (h >>> 2))
+
+def MAXLOG : Nat := 256
+
+def logCall (g : G DMem) (e : List W64) : G DMem :=
+  if g.log.length < MAXLOG then { g with log := g.log ++ [e] } else g
+
+def harnessExt (f : String) (a : List W64) (g : G DMem) : Except Err (List W64 × G DMem) :=
+  match f, a with
+  | "ext0", [] => let g := logCall g [0, 0, 0, 0, 0]; .ok ([BitVec.ofNat 64 (1000 + g.log.length)], g)
+  | "ext1", [x] => .ok ([mix 1 x], logCall g [1, x, 0, 0, 0])
+  | "ext2", [x, y] => .ok ([mix (mix 2 x) y], logCall g [2, x, y, 0, 0])
+  | "ext4", [x, y, z, w] => .ok ([mix (mix (mix (mix 4 x) y) z) w], logCall g [4, x, y, z, w])
+  | "extv", [x] => .ok ([], logCall g [6, x, 0, 0, 0])
+  | "extp", [p, v] =>
+    let g := logCall g [7, v, 0, 0, 0]
+    if validN g.mem p 8 then .ok ([], { g with mem := storeTy g.mem .i64 p (v ^^^ 0x5555#64) })
+    else .error (.oob p)
+  | _, _ => .error (.stuck s!"unknown function {f}")
+
+/-! ## registers read by an instruction (for the unset-register check) -/
+section reads
+variable {ρ : Type}
+def opdReads : Opd ρ → List ρ
+  | .reg r => [r]
+  | .imm _ => []
+  | .mem m => m.base.toList ++ m.index.toList
+def outReads : Opd ρ → List ρ
+  | .mem m => m.base.toList ++ m.index.toList
+  | _ => []
+def insnReads : Insn ρ → List ρ
+  | .bin _ _ d x y | .ovf _ _ d x y => outReads d ++ opdReads x ++ opdReads y
+  | .mov d s | .ext _ _ d s | .neg _ d s | .alloca d s => outReads d ++ opdReads s
+  | .bcmp _ _ _ x y => opdReads x ++ opdReads y
+  | .bt _ _ _ x | .switch x _ => opdReads x
+  | .call _ _ res args => (res.map outReads).flatten ++ (args.map opdReads).flatten
+  | .ret vs => (vs.map opdReads).flatten
+  | _ => []
+end reads
+
+def mkCfg {ρ : Type} [DecidableEq ρ] : Cfg ρ DMem :=
+  { ext := harnessExt, chk := fun i fr => (insnReads i).all fr.regs.has }
+
+/-! ## parsing -/
+def parseHexN (s : String) : Nat :=
+  s.foldl (fun acc c =>
+    let d := if c.isDigit then c.toNat - '0'.toNat
+             else if 'a' ≤ c ∧ c ≤ 'f' then c.toNat - 'a'.toNat + 10
+             else if 'A' ≤ c ∧ c ≤ 'F' then c.toNat - 'A'.toNat + 10 else 0
+    acc * 16 + d) 0
+
+def tyOf : String → Ty
+  | "i8" => .i8 | "u8" => .u8 | "i16" => .i16 | "u16" => .u16 | "i32" => .i32 | "u32" => .u32
+  | "i64" => .i64 | "u64" => .u64 | _ => .p
+
+def tyName : Ty → String
+  | .i8 => "i8" | .u8 => "u8" | .i16 => "i16" | .u16 => "u16" | .i32 => "i32" | .u32 => "u32"
+  | .i64 => "i64" | .u64 => "u64" | .p => "p"
+
+def optReg (s : String) : Option String := if s == "-" then none else some s
+
+def parseOpd (t : String) : Opd String :=
+  match t.splitOn ":" with
+  | ["r", n] => .reg n
+  | ["i", h] => .imm (BitVec.ofNat 64 (parseHexN h))
+  | ["m", ty, d, b, i, sc] =>
+    .mem { ty := tyOf ty, disp := BitVec.ofNat 64 (parseHexN d), base := optReg b, index := optReg i, scale := sc.toNat! }
+  | _ => .imm 0
+
+def parseLab (t : String) : Nat :=
+  match t.splitOn ":" with
+  | ["l", n] => n.toNat!
+  | _ => 0
+
+def aopTable : List (String × AOp × Bool) :=
+  (AOp.all.map fun a => [((opName a false).toLower, a, false), ((opName a true).toLower, a, true)]).flatten
+
+def brTable : List (String × AOp × Bool) :=
+  (AOp.cmps.map fun a => [((brName a false).toLower, a, false), ((brName a true).toLower, a, true)]).flatten
+
+def parseInsn (toks : List String) : Option (Insn String) :=
+  match toks with
+  | ["label", n] => some (.label n.toNat!)
+  | ["jmp", l] => some (.jmp (parseLab l))
+  | ["mov", d, s] => some (.mov (parseOpd d) (parseOpd s))
+  | ["neg", d, s] => some (.neg false (parseOpd d) (parseOpd s))
+  | ["negs", d, s] => some (.neg true (parseOpd d) (parseOpd s))
+  | ["ext8", d, s] => some (.ext 8 true (parseOpd d) (parseOpd s))
+  | ["ext16", d, s] => some (.ext 16 true (parseOpd d) (parseOpd s))
+  | ["ext32", d, s] => some (.ext 32 true (parseOpd d) (parseOpd s))
+  | ["uext8", d, s] => some (.ext 8 false (parseOpd d) (parseOpd s))
+  | ["uext16", d, s] => some (.ext 16 false (parseOpd d) (parseOpd s))
+  | ["uext32", d, s] => some (.ext 32 false (parseOpd d) (parseOpd s))
+  | ["addo", d, x, y] => some (.ovf .add false (parseOpd d) (parseOpd x) (parseOpd y))
+  | ["addos", d, x, y] => some (.ovf .add true (parseOpd d) (parseOpd x) (parseOpd y))
+  | ["subo", d, x, y] => some (.ovf .sub false (parseOpd d) (parseOpd x) (parseOpd y))
+  | ["subos", d, x, y] => some (.ovf .sub true (parseOpd d) (parseOpd x) (parseOpd y))
+  | ["mulo", d, x, y] => some (.ovf .mul false (parseOpd d) (parseOpd x) (parseOpd y))
+  | ["mulos", d, x, y] => some (.ovf .mul true (parseOpd d) (parseOpd x) (parseOpd y))
+  | ["umulo", d, x, y] => some (.ovf .umul false (parseOpd d) (parseOpd x) (parseOpd y))
+  | ["umulos", d, x, y] => some (.ovf .umul true (parseOpd d) (parseOpd x) (parseOpd y))
+  | ["bt", l, x] => some (.bt false true (parseLab l) (parseOpd x))
+  | ["bts", l, x] => some (.bt true true (parseLab l) (parseOpd x))
+  | ["bf", l, x] => some (.bt false false (parseLab l) (parseOpd x))
+  | ["bfs", l, x] => some (.bt true false (parseLab l) (parseOpd x))
+  | ["bo", l] => some (.bo false true (parseLab l))
+  | ["bno", l] => some (.bo false false (parseLab l))
+  | ["ubo", l] => some (.bo true true (parseLab l))
+  | ["ubno", l] => some (.bo true false (parseLab l))
+  | ["alloca", d, n] => some (.alloca (parseOpd d) (parseOpd n))
+  | "switch" :: x :: ls => some (.switch (parseOpd x) (ls.map parseLab))
+  | "ret" :: vs => some (.ret (vs.map parseOpd))
+  | "call" :: f :: n :: ops =>
+    let k := n.toNat!
+    some (.call false f ((ops.take k).map parseOpd) ((ops.drop k).map parseOpd))
+  | "inline" :: f :: n :: ops =>
+    let k := n.toNat!
+    some (.call true f ((ops.take k).map parseOpd) ((ops.drop k).map parseOpd))
+  | [op, d, x, y] =>
+    match aopTable.find? (·.1 == op) with
+    | some (_, a, s) => some (.bin a s (parseOpd d) (parseOpd x) (parseOpd y))
+    | none =>
+      match brTable.find? (·.1 == op) with
+      | some (_, a, s) => some (.bcmp a s (parseLab d) (parseOpd x) (parseOpd y))
+      | none => none
+  | _ => none
+
+/-- `func` header → (function without body, declared locals) -/
+def parseHeader (toks : List String) : Func String × List String :=
+  match toks with
+  | name :: np :: tl =>
+    let n := np.toNat!
+    let ps := tl.take (2 * n)
+    let rec pairs : List String → List (String × Ty)
+      | a :: b :: r => (a, tyOf b) :: pairs r
+      | _ => []
+    let tl := tl.drop (2 * n)
+    match tl with
+    | nr :: tl =>
+      let k := nr.toNat!
+      let res := (tl.take k).map tyOf
+      let tl := tl.drop k
+      ({ name := name, params := pairs ps, res := res, body := [] }, tl.drop 1)
+    | [] => ({ name := name, params := pairs ps, res := [], body := [] }, [])
+  | _ => ({ name := "?", params := [], res := [], body := [] }, [])
+
+/-! ## printing of simplified functions -/
+def hex (x : W64) : String := String.ofList (Nat.toDigits 16 x.toNat)
+
+/-- spelling of the `k`-th temporary: the library takes `t1, t2, …` skipping names already declared -/
+def tempNames (used : List String) : Nat → Nat → Nat → List String
+  | 0, _, _ => []
+  | _, _, 0 => []
+  | fuel + 1, c, need + 1 =>
+    let nm := "t" ++ toString c
+    if used.contains nm then tempNames used fuel (c + 1) (need + 1)
+    else nm :: tempNames used fuel (c + 1) need
+
+def regName (tn : Array String) : R → String
+  | .user s => s
+  | .temp k => tn.getD k s!"?t{k}"
+
+def showOpd (tn : Array String) : Opd R → String
+  | .reg r => regName tn r
+  | .imm v => toString v.toInt
+  | .mem m =>
+    let o (x : Option R) := match x with | some r => regName tn r | none => "-"
+    s!"{tyName m.ty}:{m.disp.toInt}:{o m.base}:{o m.index}:{if m.index.isNone then 0 else m.scale}"
+
+def showInsn (tn : Array String) (i : SInsn) : String :=
+  let so := showOpd tn
+  let sep (l : List String) := " ".intercalate l
+  match i with
+  | .bin a s d x y => sep [(opName a s).toLower, so d, so x, so y]
+  | .mov d s => sep ["mov", so d, so s]
+  | .ext k sg d s => sep [(extName k sg).toLower, so d, so s]
+  | .neg sh d s => sep [if sh then "negs" else "neg", so d, so s]
+  | .ovf o sh d x y =>
+    sep [(match o with | .add => "addo" | .sub => "subo" | .mul => "mulo" | .umul => "umulo") ++ (if sh then "s" else ""),
+         so d, so x, so y]
+  | .label l => s!"label L{l}"
+  | .jmp l => s!"jmp L{l}"
+  | .bcmp a s l x y => sep [(brName a s).toLower, s!"L{l}", so x, so y]
+  | .bt s t l x => sep [(if t then "bt" else "bf") ++ (if s then "s" else ""), s!"L{l}", so x]
+  | .bo u t l => sep [(if u then "u" else "") ++ (if t then "bo" else "bno"), s!"L{l}"]
+  | .switch x ls => sep (["switch", so x] ++ ls.map fun l => s!"L{l}")
+  | .alloca d n => sep ["alloca", so d, so n]
+  | .call inl f res args => sep ([if inl then "inline" else "call", f] ++ res.map so ++ args.map so)
+  | .ret vs => sep ("ret" :: vs.map so)
+
+def countTemps (f : Func R) : Nat :=
+  let ro : Opd R → Nat
+    | .reg (.temp k) => k + 1
+    | .mem m => max (match m.base with | some (.temp k) => k + 1 | _ => 0) (match m.index with | some (.temp k) => k + 1 | _ => 0)
+    | _ => 0
+  let ri : SInsn → Nat
+    | .bin _ _ d x y | .ovf _ _ d x y => max (ro d) (max (ro x) (ro y))
+    | .mov d s | .ext _ _ d s | .neg _ d s | .alloca d s => max (ro d) (ro s)
+    | .bcmp _ _ _ x y => max (ro x) (ro y)
+    | .bt _ _ _ x | .switch x _ => ro x
+    | .call _ _ res args => (res ++ args).foldl (fun m o => max m (ro o)) 0
+    | .ret vs => vs.foldl (fun m o => max m (ro o)) 0
+    | _ => 0
+  f.body.foldl (fun m i => max m (ri i)) 0
+
+/-! ## state and commands -/
+structure DState where
+  funcs : List (Func String × List String) := []   -- with declared locals
+  cur : Option (Func String × List String × List (Insn String)) := none   -- body reversed
+
+def runEntry {ρ : Type} [DecidableEq ρ] (P : Prog ρ) (mk : String → ρ) (entry : String) (args : List W64) : String :=
+  match findFunc P entry with
+  | none => s!"X {entry} no-such-function"
+  | some f =>
+    let g0 : G DMem := { mem := initMem, sp := BitVec.ofNat 64 STK_BASE, log := [] }
+    let av := BitVec.ofNat 64 (BUF_BASE + 32) :: args
+    let ps := f.params.take av.length
+    match enter (ρ := ρ) [] ps (av.take ps.length) with
+    | .error e => s!"X {entry} {repr e}"
+    | .ok rs0 =>
+      let _ := mk
+      match exec P mkCfg (fun _ => []) 2000000 f { regs := rs0, pc := 0 } g0 with
+      | .error e => s!"X {entry} {repr e}"
+      | .ok (rv, g) =>
+        let r := rv.headD 0
+        let bytes := String.join (g.mem.buf.toList.map fun b =>
+          let d := Nat.toDigits 16 b.toNat
+          String.ofList (if d.length < 2 then '0' :: d else d))
+        let logs := " ".intercalate (g.log.map fun e =>
+          match e with
+          | [i, a, b, c, d] => s!"{i.toNat}:{hex a},{hex b},{hex c},{hex d}"
+          | _ => "?")
+        s!"P {entry} {hex r} log{g.log.length}\nM {bytes}\nL {logs}"
+
+def step (st : DState) (toks : List String) : DState × Option String :=
+  match toks with
+  | "func" :: hd =>
+    let (f, locs) := parseHeader hd
+    ({ st with cur := some (f, locs, []) }, none)
+  | ["endfunc"] =>
+    match st.cur with
+    | some (f, locs, body) => ({ funcs := st.funcs ++ [({ f with body := body.reverse }, locs)], cur := none }, none)
+    | none => (st, some "E endfunc without func")
+  | ["reset"] => ({}, none)
+  | ["lower", v] =>
+    let out := st.funcs.map fun (f, locs) =>
+      let sf := simplifyFunc (v == "1") f
+      let used := f.params.map (·.1) ++ locs
+      let n := countTemps sf
+      let tn := (tempNames used (n + used.length + 2) 1 n).toArray
+      s!"F {f.name}\n" ++ "\n".intercalate (sf.body.map (showInsn tn))
+    (st, some ("\n".intercalate out ++ "\nEND"))
+  | "run" :: entry :: args =>
+    let P : Prog String := st.funcs.map (·.1)
+    (st, some (runEntry P id entry (args.map fun h => BitVec.ofNat 64 (parseHexN h))))
+  | "runs" :: v :: entry :: args =>
+    let P : Prog R := st.funcs.map fun (f, _) => simplifyFunc (v == "1") f
+    (st, some (runEntry P R.user entry (args.map fun h => BitVec.ofNat 64 (parseHexN h))))
+  | [] | [""] => (st, none)
+  | toks =>
+    match st.cur with
+    | some (f, locs, body) =>
+      match parseInsn toks with
+      | some i => ({ st with cur := some (f, locs, i :: body) }, none)
+      | none => (st, some s!"E bad-insn {" ".intercalate toks}")
+    | none => (st, some s!"E bad-line {" ".intercalate toks}")
+
+partial def loop (h : IO.FS.Stream) (out : IO.FS.Stream) (st : DState) : IO Unit := do
+  let line ← h.getLine
+  if line.isEmpty then return ()
+  let (st', o) := step st ((line.trimAscii.toString.splitOn " ").filter (· ≠ ""))
+  match o with
+  | some s => out.putStrLn s
+  | none => pure ()
+  loop h out st'
+
+def main (_args : List String) : IO Unit := do
+  loop (← IO.getStdin) (← IO.getStdout) {}
